@@ -77,6 +77,7 @@ def build(case):
                 ties=bool(rng.random() < 0.3),
                 shanks=[0, 2][int(rng.integers(0, 2))], ncdat_extra=int(rng.integers(0, 2)),
                 dtype_ids=['int32', 'uint32', 'uint16'][int(rng.integers(0, 3))],
+                dtype_map=['int32', 'int64', 'uint32'][int(rng.integers(0, 3))],
                 dtype_times=['uint64', 'int64', 'float64', 'uint32'][int(rng.integers(0, 4))],   # float64: MATLAB-written sample numbers
                 far_ids=int(rng.choice([0, 0, 0, 0, 300, 2500])))
     if rng.random() < 0.03:
@@ -98,6 +99,8 @@ def build(case):
         # size-dependent code paths: > 1 MiB id files (> 262144 int32 spikes)
         opts.update(ns=300000, n_samples=400000, raw='none', features='none', far_ids=0, nc=6, nt=5, rate=30000.)
     spec = random_spec(rng, **opts)
+    if spec.pc_feature_ind is not None and spec.pc_feature_ind.shape[1] >= 2 and rng.random() < 0.2:
+        spec.pc_feature_ind[0, 1] = spec.pc_feature_ind[0, 0]       # a column table listing one channel twice (both columns weigh in the depth)
     if rng.random() < 0.2 and not case.get('large') and not case.get('batch'):
         # a KS-named source whose spike times are given the ALF way: seconds from a synchronised clock (offset and drift,
         # not samples / rate) in spikes.times.npy plus spikes.samples.npy; the export keeps those seconds
@@ -190,15 +193,15 @@ def _run(case, ctx, d, which):
             np.save(os.path.join(src, 'cluster_probes.npy'), np.zeros(
                 int(spec.clusters.max()) + 1 if spec.curated else spec.n_templates, dtype=np.int32))
     from pathlib import Path
-    out = os.path.join(d, ['alf', 'alf out (é)', 'alf', 'mouse[07]*?', 'alf'][case['seed'][-1] % 5])     # also glob metacharacters in the path
-    if case['seed'][-1] % 10 == 3:
+    out = os.path.join(d, ['alf', 'alf out (é)', 'alf', 'mouse[07]*?', 'alf'][case['seed'][2] % 5])     # also glob metacharacters in the path
+    if case['seed'][2] % 10 == 3:
         os.makedirs(out)
         out = os.path.join(out, 'alf')
-    if case['seed'][-1] % 10 == 9 and case.get('source') != 'merged':
+    if case['seed'][2] % 10 == 9 and case.get('source') != 'merged':
         out = os.path.join(d, 'src_alf')      # a sibling whose name begins with the source's name
-    if case['seed'][-1] % 10 == 7 and case.get('source') != 'merged':
+    if case['seed'][2] % 10 == 7 and case.get('source') != 'merged':
         out = os.path.join(d, 'SRC')          # another directory whose name differs from the source's ('src') by letter case only
-    if case['seed'][-1] % 2:
+    if case['seed'][2] % 2:
         out = Path(out)
     curated = spec.curated
     mm_empty = len(set(range(int(spec.clusters.max()) + 1)) - set(spec.clusters.tolist())) > 0
@@ -232,10 +235,10 @@ def _run(case, ctx, d, which):
             spellings = [src, src + os.sep, os.path.join(d, 'x', '..', os.path.basename(src)), link,
                          os.path.join(src, '.')]
             os.makedirs(os.path.join(d, 'x'), exist_ok=True)
-            target = spellings[case['seed'][-1] % len(spellings)]
+            target = spellings[case['seed'][2] % len(spellings)]
             for n_t, tgt in enumerate((src, target)):
                 # (force=True allows overwriting an earlier export; it does not make the source directory a valid target)
-                rr = call(c.convert, tgt, label=label, ampfactor=factor, force=bool((case['seed'][-1] + n_t) % 2))
+                rr = call(c.convert, tgt, label=label, ampfactor=factor, force=bool((case['seed'][2] + n_t) % 2))
                 if rr.ok or snapshot(src) != b0:
                     ctx.violation('same_directory_accepted', desc,
                                   'convert() into the source directory spelled %r was %s' % (
@@ -245,7 +248,7 @@ def _run(case, ctx, d, which):
         before = snapshot(src)
         if mon.fs:
             mon.fs.watch(src)
-        if case['seed'][-1] % 2:
+        if case['seed'][2] % 2:
             rr = call(c.convert, out, False, label, factor)          # the documented positional order (out_path, force, label, ampfactor)
         else:
             rr = call(c.convert, out, label=label, ampfactor=factor)
@@ -255,7 +258,7 @@ def _run(case, ctx, d, which):
             ctx.violation('raised', desc, 'convert() raised %r' % rr.exc, dict(f0, exc=rr.exc_name, stage='convert'), tb=rr.tb)
             return
         m2 = rr.value
-        if case['seed'][-1] % 4 == 1 and case.get('source') != 'merged':
+        if case['seed'][2] % 4 == 1 and case.get('source') != 'merged':
             # history: a second conversion of the same model into another directory (the source now holds the
             # subset store written by the first one); the second output is the one judged
             ctx.cell('converted_twice')
@@ -269,14 +272,14 @@ def _run(case, ctx, d, which):
                               dict(f0, exc=rr.exc_name, stage='convert_again'), tb=rr.tb)
                 return
             m2 = rr.value
-        if case['seed'][-1] % 4 == 3 and case.get('source') != 'merged':
+        if case['seed'][2] % 4 == 3 and case.get('source') != 'merged':
             # history: the SAME creator object converts a second time, into another directory and with another unit
             # factor; the second output is the one judged
             ctx.cell('same_creator_other_factor')
             if m2 is not None:
                 call(m2.close)
             out = os.path.join(d, 'alf_other_factor')
-            factor = [2.34375e-06, 4][case['seed'][-1] % 8 == 3]
+            factor = [2.34375e-06, 4][case['seed'][2] % 8 == 3]
             desc = dict(desc, factor=factor, history='same_creator_other_factor')
             rr = call(c.convert, out, label=label, ampfactor=factor)
             after = snapshot(src)
@@ -285,7 +288,7 @@ def _run(case, ctx, d, which):
                               dict(f0, exc=rr.exc_name, stage='convert_again'), tb=rr.tb)
                 return
             m2 = rr.value
-        if case['seed'][-1] % 4 == 2 and case.get('source') != 'merged' and not label:
+        if case['seed'][2] % 4 == 2 and case.get('source') != 'merged' and not label:
             # history: export, curation goes on in the source (cluster ids are permuted among themselves), the dataset
             # is loaded again and exported with force=True into the SAME output directory; judged against the
             # dataset as it is now
